@@ -89,23 +89,29 @@ def run(ctx):
     unknown = sorted(iterating - set(FAMILY) - {'Pep484585TupleFixed', 'Pep646TupleFixedVariadic'})
     ctx.ob('C10.R2', 'signsets:all-in-spec-table', setmod,
            'every sign of an iterating sign set has a family in the specification table', not unknown, f'{unknown}')
-    # explanation path
-    em = ctx.repo.mod('beartype._check.error._pep.pep484585.errpep484585container')
-    fn = em.defs.get('find_cause_pep484585_container_args_1')
-    ctx.require(fn is not None, 'anchor vanished: find_cause_pep484585_container_args_1')
-    loops = [x for x in walk_shallow(fn) if isinstance(x, ast.For)]
-    ok, detail = bool(loops), 'no enumeration loop'
-    for lp in loops:
-        guarded = False
-        child, p = lp, parent(lp)
-        while p is not None and p is not fn:
-            if isinstance(p, ast.If) and any(child is s for s in p.body) and 'isinstance(cause.pith, Collection)' in norm(p.test):
-                guarded = True
-            child, p = p, parent(p)
-        if not guarded:
-            ok, detail = False, f'loop over {norm(lp.iter)} is not under isinstance(cause.pith, Collection)'
-    ctx.ob('C10.R2', 'explain:container-enumeration-guard', em.where(fn),
-           'the explanation path enumerates items only of Collections', ok, detail)
+    # explanation path: the one-argument container cause finder, interpreted (shared machinery with C09.R3) on an object
+    # that is *not* a Collection — what a quasi-iterable hint (Iterable[T], …) may be checked against: nothing is
+    # enumerated, read or measured
+    from .c09 import container_finder_runs
+    n_run = 0
+    for finder, mm_, tag, is_tf, n_, kids, log in container_finder_runs(ctx, is_collection=False):
+        if is_tf or 'mapping' in finder.qualname:
+            continue
+        n_run += 1
+        touched = [(k, w) for k, w in log if k in ('item', 'full-iteration', 'len')]
+        ctx.ob('C10.R2', f'explain:non-collection-untouched:{tag}', mm_.where(finder.node),
+               'the explanation path neither enumerates nor measures an object that is not a Collection', not touched,
+               f'operations on the object: {touched}')
+    ctx.require(n_run >= 4, f'C10.R2: only {n_run} container cause finder runs on a non-collection object')
+    # … and a Collection that is not a Sequence is never subscripted (obj[i] on a mapping with __missing__ inserts a key;
+    # on a set it raises): the item is taken with next(iter(obj))
+    for finder, mm_, tag, is_tf, n_, kids, log in container_finder_runs(ctx, is_sequence=False):
+        if is_tf or 'mapping' in finder.qualname or 'HintLogicSequence' in tag:
+            continue            # (objects checked against sequence hints are Sequences)
+        subs = [w for k, w in log if k == 'subscript']
+        ctx.ob('C10.R2', f'explain:non-sequence-not-subscripted:{tag}', mm_.where(finder.node),
+               'the explanation path does not subscript a Collection that is not a Sequence', not subs,
+               f'subscripts {subs}: on a defaultdict this inserts a key, on a set it raises')
 
     # ---- R5 ----------------------------------------------------------------------
     # the explanation path must not copy or consume a non-Collection object either (rule shared with C03.R7:
